@@ -40,6 +40,10 @@ def keyed_case(draw, opts, raw=False, with_assert=False):
         if not A.isint(t):
             p1, tin, t = [], 'int', 'int'
         node = draw(st.sampled_from([['assert_mod', draw(st.integers(2, 5)), draw(st.integers(0, 1))], ['assert1_le']]))
+        if node[0] == 'assert_mod' and draw(st.integers(0, 3)) == 0:
+            # the same condition as a truthy / falsy NUMBER (2, 1, 0): whatever assert_ makes of a result that is not a bool,
+            # it must make the same of it on a keyed and on a plain source
+            node = node + ['int']
         p = p1 + [node] + draw(gen.chain(t, NOEARLY, NOEARLY.max_depth, max_len=3))
     if not with_assert and not opts.stateless and draw(st.integers(0, 5)) == 0 and not gen.has_early(p) and 'tee' not in A.kinds_in(p) and A.type_of(p, tin) in A.SCALAR:
         # a streaming scan that appends to ONE list and re-emits it, and a stage that keeps what it receives: the keyed run must
@@ -267,6 +271,38 @@ def check_grouped(case):
     return info(case, plain)
 
 
+BIG = gen.Opts(mux=False, tee=False, max_depth=1, max_len=3, exact=True, tee_precondition=True,
+               only=('mean', 'sum', 'min', 'max', 'count', 'first', 'last', 'take', 'duc', 'filter_gt', 'identity', 'to_list',
+                     'batch', 'do_action'))
+# every VALUE fits 64 bits (assumption 1: a scan with an int seed keeps its accumulator in a 64-bit typed state); their sums
+# inside mean / sum do not have to
+BIG_BASES = [2 ** 53, 1_700_000_000_000_000_000, 2 ** 62, -2 ** 62, 10 ** 16, 2 ** 63 - 40]
+
+
+@st.composite
+def bigint_case(draw):
+    """Integers far beyond 2**53 (epoch nanoseconds, 64 bit counters / ids, values that cancel): Python's ints are exact there,
+    so whatever the plain pipeline computes for a group (a mean of an exact sum, an extremum) the keyed run must compute too."""
+    p = draw(gen.chain('int', BIG, 1, min_len=1))
+    base = draw(st.sampled_from(BIG_BASES))
+    nk = draw(st.integers(1, 4))
+    keys = draw(st.lists(st.integers(0, nk - 1), min_size=2, max_size=14))
+    val = st.one_of(st.integers(-9, 9).map(lambda d: base + d), st.integers(-9, 9).map(lambda d: -base + d), st.integers(-9, 9))
+    vals = draw(st.lists(val, min_size=len(keys), max_size=len(keys)))
+    return {'tin': 'int', 'p': p, 'items': [[k, v] for k, v in zip(keys, vals)], 'numpy': False}
+
+
+def check_bigint(case):
+    out = check_grouped(case)
+    out['labels'] = out['labels'] + ['big-ints']
+    per_group = groups_of(case['items'])[1].values()
+    inexact = any(abs(sum(v[:n])) > 2 ** 53 and float(sum(v[:n])) != sum(v[:n]) for v in per_group for n in range(1, len(v) + 1))
+    if inexact:
+        out['labels'].append('a partial sum that no double represents')
+    out['nontrivial'] = bool(out['nontrivial'] and inexact)
+    return out
+
+
 def check_raw(case):
     case = dict(case, items=np_items(case))
     order, g = groups_of(case['items'])
@@ -415,6 +451,8 @@ def subs(tier):
     return [
         Sub('grouped', check_grouped, gen=lambda: keyed_case(OPTS), examples={'quick': 1800, 'thorough': 400000},
             doc='group_by(key,[map(value),*P]) under with_memory_store vs rx.from_(group).pipe(*P), per group, exact'),
+        Sub('bigint', check_bigint, gen=bigint_case, examples={'quick': 500, 'thorough': 60000},
+            doc='the same with integer values far beyond 2**53 (exact Python ints: sums, means and extrema must agree digit for digit)'),
         Sub('grouped2', check_grouped2, gen=keyed2_case, examples={'quick': 700, 'thorough': 100000},
             doc='two-level keys: group_by(k1,[group_by(k2,[map(value),*P])]) vs the plain pipeline per (k1,k2) group'),
         Sub('raw', check_raw, gen=lambda: keyed_case(OPTS, raw=True), examples={'quick': 900, 'thorough': 200000},
